@@ -1003,6 +1003,13 @@ func (h *H) Open(flags p9.OpenFlags) (q p9.QID, iounit uint32, err error) {
 	if err != nil {
 		return p9.QID{}, 0, err
 	}
+	// as open(2) does (localfs hands the flags to it unchanged)
+	if flags&0x10000 != 0 && !n.Mode.IsDir() { // O_DIRECTORY
+		return p9.QID{}, 0, linux.ENOTDIR
+	}
+	if flags&0x20000 != 0 && n.Mode.IsSymlink() { // O_NOFOLLOW
+		return p9.QID{}, 0, linux.ELOOP
+	}
 	h.node = n
 	h.opened = true
 	h.flags = flags
